@@ -581,7 +581,7 @@ def pred_C06(model, params, run):
             st = it["finished"]
             # off the dyadic grid "no work left" is judged like the code documents it (error_tol = 1e-10);
             # the predicate asks for less (1e-12) so that it can never demand more than the code promises
-            tol = Fr(1, 10 ** 12) if model.get("decimal") else Fr(0)
+            tol = Fr(1, 10 ** 12) if model.get("decimal") else Fr(0)   # (a caller's larger error_tol only finishes more)
             for t in range(model["nT"]):
                 if st["tstate"][t] == WORKING and F(st["rem"][t]) <= tol and finish_gate(model, st["tstate"], t):
                     out.append(viol("C06", "task %d not FINISHED although its work is done and finish dependencies hold" % t, time=st["time"]))
@@ -840,7 +840,9 @@ def pred_C13(model, params, run):
                 return out
             tops = [c for c in lst if not any(pp in lst for pp in model["comps"][c]["parents"])]
             used = sum((F(model["comps"][c]["size"]) for c in tops), Fr(0))
-            if used > F(model["wps"][q]["cap"]):
+            # off the dyadic grid the code adds floats: a rounding error is not an overfilled workplace
+            slack = Fr(1, 10 ** 9) if model.get("decimal") else Fr(0)
+            if used > F(model["wps"][q]["cap"]) + slack:
                 out.append(viol("C13", "workplace %d over capacity" % q, boundary=b, time=st["time"]))
                 return out
     for it in steps(run):
@@ -886,7 +888,10 @@ def pred_C13(model, params, run):
 
 def pred_C14(model, params, run):
     out = []
-    prev = None
+    # a resumed run (state initialisation off) continues the life of the components: entering it must not
+    # send a component back either
+    resumed = params.get("initState", True) is False and run.get("pre") is not None
+    prev = run["pre"] if resumed else None
     for b, st in run["snaps"]:
         check_now = b in ("enter", "comp1", "removed", "comp2", "updated", "absence", "allocated", "comp3",
                           "costed", "performed", "recorded", "ticked")
@@ -902,7 +907,7 @@ def pred_C14(model, params, run):
                 if any(x in (READY, WORKING) for x in ts) and st["cstate"][c] == NONE:
                     out.append(viol("C14", "component %d NONE although a task is READY/WORKING" % c, boundary=b, time=st["time"]))
                     return out
-            if prev is not None and b != "enter":
+            if prev is not None and (b != "enter" or resumed):
                 if prev["cstate"][c] != NONE and st["cstate"][c] == NONE:
                     out.append(viol("C14", "component %d returned to NONE" % c, boundary=b, time=st["time"]))
                     return out
